@@ -345,6 +345,19 @@ def r_spawn_site(e, R):
                     f"{sf.short}: the worker's exit lock is taken before the worker is started", sf.short, "worker_exit_lock.acquire() before p.start()",
                     "the worker starts with its exit lock free: on a timeout exit it does not wait for the manager's acknowledgement, its sentinel "
                     "can be seen while it is still registered and the pool is flagged broken", e.loc(sf, n))
+            # the token is binary: created with one unit and taken exactly once, so that the worker's own acquire at exit blocks
+            # until the manager has removed it from the table and released it
+            ctor = [n_ for n_ in func_nodes(sf) if isinstance(n_, ast.Assign) and isinstance(n_.value, ast.Call) and e.objs(sf, n_.targets[0]) & a.exit_locks] if False else \
+                [n_ for n_ in func_nodes(sf) if isinstance(n_, ast.Assign) and isinstance(n_.value, ast.Call) and isinstance(n_.targets[0], ast.Name)
+                 and {v for v in e.pt.ev(sf, n_.targets[0]) if v[0] == "obj"} & a.exit_locks]
+            okone = bool(ctor) and all((norm(n_.value.func).split(".")[-1] in ("Lock",) and not n_.value.args) or
+                                       (norm(n_.value.func).split(".")[-1] in ("BoundedSemaphore", "Semaphore") and len(n_.value.args) == 1
+                                        and isinstance(n_.value.args[0], ast.Constant) and n_.value.args[0].value == 1) for n_ in ctor)
+            acq_calls = [c for cn in acq for c in calls_in(cn) if e.receiver_objs(sf, c, ("acquire",)) & a.exit_locks]
+            R.check(okone and len(acq_calls) == 1, "R-SPAWN-SITE", f"{sf.short}: the exit lock is a binary token (one unit, taken exactly once before start)", sf.short,
+                    "; ".join(norm(n_.value)[:40] for n_ in ctor) or "exit lock constructor",
+                    "the exit lock has more than one unit (or is taken twice): the worker's own acquire at exit succeeds at once (or never), so it leaves while still "
+                    "registered -- its sentinel is seen by the manager and a clean idle-timeout exit is reported as a crash", e.loc(sf, n))
             att = [cn for cn in g.nodes if cn.kind == "stmt" and isinstance(cn.ast, ast.Assign) and isinstance(cn.ast.targets[0], ast.Attribute)
                    and e.objs(sf, cn.ast.targets[0].value) & a.process_objs and e.objs(sf, cn.ast.value) & a.exit_locks]
             R.check(bool(att) and all(any(g.dominates(x, i) for x in att) for i in insn), "R-SPAWN-SITE",
